@@ -528,7 +528,10 @@ String File::getRelativePath(const String& from, const String& to)
   String simTo = simplifyPath(to);
   if(simFrom == simTo)
     return String(".");
-  simFrom.append('/');
+  if(simFrom.isEmpty()) // from is the current directory
+    return simTo;
+  if(!simFrom.endsWith("/")) // the root directory already ends with a separator
+    simFrom.append('/');
   if(String::compare((const char*)simTo, (const char*)simFrom, simFrom.length()) == 0)
     return String((const char*)simTo + simFrom.length(), simTo.length() - simFrom.length());
   String result("../");
@@ -536,9 +539,12 @@ String File::getRelativePath(const String& from, const String& to)
   {
     simFrom.resize(simFrom.length() - 1);
     const char* newEnd = simFrom.findLast('/');
-    if(!newEnd)
-      break;
-    simFrom.resize((newEnd - (const char*)simFrom) + 1);
+    simFrom.resize(newEnd ? (newEnd - (const char*)simFrom) + 1 : 0); // the parent directory incl. '/', or nothing left
+    if(simTo.length() + 1 == simFrom.length() && String::compare((const char*)simFrom, (const char*)simTo, simTo.length()) == 0)
+    { // to is this parent directory itself
+      result.resize(result.length() - 1);
+      return result;
+    }
     if(String::compare((const char*)simTo, (const char*)simFrom, simFrom.length()) == 0)
     {
       result.append(String((const char*)simTo + simFrom.length(), simTo.length() - simFrom.length()));
